@@ -9,6 +9,7 @@
   above `v`, so "`rank ≤ 256`" is "at most 256 levels deep".
 -/
 import IcingaProofs.C07.Cycle
+import IcingaProofs.C07.Registry
 
 namespace Icinga.C07
 
@@ -202,6 +203,20 @@ theorem runtime_adds_stay_acyclic (n : Nat) (batches : List (List Dep)) :
     | false => simpa using hg
     | true => simpa [withNew] using (cycle_check_sound g b n hg hacc).1
 
+/-- **model_runtime_add_meets_spec** — the specification predicate evaluated on every observed runtime
+    addition (cycle ⇒ refused; refused ⇒ dependency counts unchanged; accepted ⇒ exactly the batch added)
+    accepts the model's own behaviour. -/
+theorem model_runtime_add_meets_spec (n : Nat) (g : Graph) (new : List Dep) (hg : ∃ rg, RankedS (succs g) rg) :
+    specRuntimeAdd n g new (runtimeAdd g new n).2 (fun v => (depsOf (runtimeAdd g new n).1 v).length) = none := by
+  unfold specRuntimeAdd runtimeAdd
+  cases hacc : (cycleCheck g new n).accepted with
+  | false => simp [depsOf]
+  | true =>
+    obtain ⟨⟨r, hr⟩, _⟩ := cycle_check_sound g new n hg hacc
+    have := acyclicSpec_of_ranked n _ r hr
+    simp only [withNew] at this
+    simp [depsOf, this]
+
 /-- **model_load_meets_spec** — the specification predicate the driver evaluates on the implementation's
     accepted/rejected answer ("a configuration containing a cycle is rejected", decided by peeling,
     independently of the DFS) accepts the model's own verdict for every batch. -/
@@ -240,6 +255,108 @@ theorem terminates_on_accepted (g : Graph) (new : List Dep) (bound : Nat)
   apply reachable_fuel_indep (withNew g new) dt _ hrk
   · show min (r v) _ < _; omega
   · show min (r v) _ < _; omega
+
+/-! ## runtime additions/removals leave the registry equal to a fresh load -/
+
+/-- **registry_refines_set** — for every sequence of runtime `AddDependency`/`RemoveDependency` calls
+    (duplicates, repeated adds, removals of absent objects, groups shared between children), starting from
+    the empty registry: (1) the per-child view — `GetDependenciesForChild(child)` on the group the
+    checkable holds under a key — is exactly the multiset of live dependencies of that child with that
+    key, and the checkable holds a group under a key iff such a dependency exists; (2) the registry *is*
+    what a fresh load of the live set builds (`RegistryIs`: pairwise different, non-empty groups, one per
+    identity occurring among the live (child, key) groups, each holding all live dependencies of that
+    identity).  Redundancy group names are non-empty (an empty name means "no group" in the code). -/
+theorem registry_refines_set (ops : List ROp) (hn : ∀ x, ROp.add x ∈ ops → x.d.group ≠ some "") :
+    let st := ops.foldl applyOp {}
+    let live := ops.foldl liveAfter []
+    (∀ c k, (∀ x, x ∈ viewDeps st c k ↔ x ∈ live ∧ x.d.child = c ∧ x.d.key = k) ∧ (viewDeps st c k).Nodup ∧
+            ((cmapLookup st.cmap (c, k)).isSome ↔ ∃ x ∈ live, x.d.child = c ∧ x.d.key = k)) ∧
+    RegistryIs st.registry live := by
+  intro st live
+  have h : Inv st live := run_inv ops {} [] inv_empty hn
+  refine ⟨fun c k => ?_, inv_registry h⟩
+  obtain ⟨_, hm, hnd⟩ := dropGroup_inv h c k
+  rw [viewDeps_eq_drop]
+  refine ⟨hm, hnd, ?_⟩
+  constructor
+  · intro hs
+    obtain ⟨i, hi⟩ := Option.isSome_iff_exists.1 hs
+    exact (h.centry c k i (lookup_some hi)).2.2
+  · rintro ⟨x, hx, rfl, rfl⟩
+    cases hl : cmapLookup st.cmap (x.d.child, x.d.key) with
+    | some i => rfl
+    | none =>
+      obtain ⟨i, hi⟩ := h.live x hx
+      exact absurd hi (lookup_none hl i)
+
+/-- **fresh_load_spec** — `PushDependencyGroupsToRegistry` after a load: whatever the order in which the
+    checkables push their pending groups (each (child, key) pair once), the result satisfies the same
+    characterisation. -/
+theorem fresh_load_spec (L : List LDep) (hL : L.Nodup) (hn : ∀ x ∈ L, x.d.group ≠ some "")
+    (todo : List (Nat × GKey)) (hnd : todo.Nodup)
+    (hcov : ∀ ck, ck ∈ todo ↔ ∃ x ∈ L, (x.d.child, x.d.key) = ck) :
+    Inv (pushAll L {} todo) L := by
+  have h0 : Inv {} (L.filter (fun x => (fun _ => false) (x.d.child, x.d.key))) := by
+    have : L.filter (fun x => (fun _ => false) (x.d.child, x.d.key)) = [] := by simp
+    rw [this]; exact inv_empty
+  have := pushAll_inv L hL hn todo {} (fun _ => false) hnd (fun ck hck => ⟨rfl, (hcov ck).1 hck⟩) h0
+  apply this.congr hL
+  intro x
+  simp only [Bool.false_or, List.mem_filter, List.contains_iff_mem]
+  exact ⟨fun hx => hx.1, fun hx => ⟨hx, (hcov _).2 ⟨x, hx, rfl⟩⟩⟩
+
+/-- **runtime_equals_fresh_load** — "adding and removing dependencies at runtime leaves the graph equal to
+    what a fresh load of the same set would give": the registry reached by any runtime sequence and the
+    registry of a fresh load of the resulting live set have the same number of groups, and correspond
+    group by group (same identity, same members); the per-child views coincide. -/
+theorem runtime_equals_fresh_load (ops : List ROp) (hn : ∀ x, ROp.add x ∈ ops → x.d.group ≠ some "")
+    (todo : List (Nat × GKey)) (hnd : todo.Nodup)
+    (hcov : ∀ ck, ck ∈ todo ↔ ∃ x ∈ ops.foldl liveAfter [], (x.d.child, x.d.key) = ck) :
+    let rt := ops.foldl applyOp {}
+    let fresh := pushAll (ops.foldl liveAfter []) {} todo
+    rt.registry.length = fresh.registry.length ∧
+    (∀ g ∈ rt.registry, ∃ g' ∈ fresh.registry, identEq g.ident g'.ident = true ∧ ∀ x, x ∈ g.members ↔ x ∈ g'.members) ∧
+    (∀ c k x, x ∈ viewDeps rt c k ↔ x ∈ viewDeps fresh c k) := by
+  intro rt fresh
+  have h1 : Inv rt (ops.foldl liveAfter []) := run_inv ops {} [] inv_empty hn
+  have h2 : Inv fresh (ops.foldl liveAfter []) := fresh_load_spec _ h1.lnodup h1.names todo hnd hcov
+  obtain ⟨hu1, hu2⟩ := registryIs_unique (inv_registry h1) (inv_registry h2)
+  refine ⟨hu2, hu1, fun c k x => ?_⟩
+  rw [viewDeps_eq_drop, viewDeps_eq_drop, (dropGroup_inv h1 c k).2.1 x, (dropGroup_inv h2 c k).2.1 x]
+
+/-! ## non-vacuity of the registry theorems -/
+
+section RegistryExamples
+
+def rx (id c p : Nat) (grp : Option String) (isf : Bool) : LDep :=
+  { id := id, d := { child := c, parent := p, group := grp, stateFilter := 16, ignoreSoft := isf, periodClosed := false,
+                     disableChecks := true, disableNotifications := true } }
+
+/-- children 2 and 3 both depend on {0, 1} in redundancy group "g1": one shared group with 4 members. -/
+def exOps : List ROp :=
+  [ROp.add (rx 0 2 0 (some "g1") false), ROp.add (rx 1 2 1 (some "g1") false),
+   ROp.add (rx 2 3 0 (some "g1") false), ROp.add (rx 3 3 1 (some "g1") false)]
+
+example : ((exOps.foldl applyOp {}).registry.map (fun g : Group => g.members.length)) = [4] := by decide
+-- removing one member of child 2 splits the group; adding it back (new object) merges again
+example : (((exOps ++ [ROp.remove (rx 0 2 0 (some "g1") false)]).foldl applyOp {}).registry.map (fun g : Group => g.members.length)) = [2, 1] := by decide
+example : (((exOps ++ [ROp.remove (rx 0 2 0 (some "g1") false), ROp.add (rx 4 2 0 (some "g1") false)]).foldl applyOp {}).registry.map
+    (fun g : Group => g.members.length)) = [4] := by decide
+-- the per-child view after the removal
+example : ((viewDeps ((exOps ++ [ROp.remove (rx 0 2 0 (some "g1") false)]).foldl applyOp {}) 2 (.named "g1")).map (·.id)) = [1] := by decide
+-- duplicates outside a redundancy group with different ignore_soft_states: one group, two keys
+example : (([ROp.add (rx 0 1 0 none false), ROp.add (rx 1 1 0 none true)].foldl applyOp {}).registry.map
+    (fun g : Group => (g.ident.2.length, g.members.length))) = [(2, 2)] := by decide
+-- the hypothesis of `registry_refines_set` holds for `exOps`
+example : ∀ x, ROp.add x ∈ exOps → x.d.group ≠ some "" := by
+  intro x hx
+  simp only [exOps, List.mem_cons, List.not_mem_nil, or_false, ROp.add.injEq] at hx
+  rcases hx with rfl | rfl | rfl | rfl <;> decide
+-- a fresh load of the same four dependencies gives the same single group
+example : ((pushAll ((exOps.foldl liveAfter [])) {} [(2, .named "g1"), (3, .named "g1")]).registry.map
+    (fun g : Group => g.members.length)) = [4] := by decide
+
+end RegistryExamples
 
 /-! ## non-vacuity: concrete states meeting the hypotheses, and wrong traces the spec rejects -/
 
